@@ -682,7 +682,13 @@ def _draw_knobs(rng, tier):
         "n_slots": 1 if rng.random() < 0.75 else 2,
         "p_repeat": rng.choice([0.0, 0.1, 0.25]),
         "max_notes": rng.choice([2, 4, 8, 12, 12, 20] if tier == "quick" else [2, 4, 8, 12, 20, 40]),
+        # dense content (many notes in a short span, on several pitches) makes numeric coincidences between notes common
+        "horizon": rng.choice([24, 48, 96, 200, 400, 900]),
+        "pitches": None,
     }
+    if rng.random() < 0.4:
+        base = rng.randrange(30, 90)
+        k["pitches"] = sorted({base + rng.randrange(0, 14) for _ in range(rng.randrange(3, 9))})
     return k
 
 
@@ -693,8 +699,8 @@ def _gen_init(rng, knobs):
         if r < 0.08:
             init.append({"spec": dict(music.EMPTY_SPEC), "mode": "empty"})
         else:
-            spec = music.gen_music(rng, max_notes=knobs["max_notes"], channels=knobs["channels"],
-                                   horizon=400 if knobs["max_notes"] <= 12 else 900)
+            spec = music.gen_music(rng, max_notes=knobs["max_notes"], channels=knobs["channels"], horizon=knobs["horizon"],
+                                   pitches=knobs["pitches"])
             init.append({"spec": spec, "mode": rng.choice(MODES)})
     return init
 
